@@ -266,12 +266,17 @@ def oracle(rep, rnd, tier):
     # (b) times of day: round trip to the second ------------------------
     nt = 4000 if tier != "thorough" else 60000
     bad_t = 0
-    for i in range(nt):
+    # the first and the last representable day and the days next to them, at the ends and in the middle of the day
+    edge = [datetime.datetime(y, m, d, hh, mm, ss) for (y, m, d) in ((1900, 1, 1), (1900, 1, 2), (9999, 12, 30), (9999, 12, 31), (2000, 2, 29), (1999, 12, 31))
+            for (hh, mm, ss) in ((0, 0, 0), (0, 0, 1), (12, 34, 56), (23, 59, 58), (23, 59, 59))]
+    for i in range(nt + len(edge)):
         y = rnd.choice([1900, 1970, 2000, 2024, 2079, 9999, rnd.randint(1900, 9999)])
         if tier != "thorough" and y > 2400 and rnd.random() < 0.8:
             y = rnd.randint(1900, 2400)
         m, d = rnd.randint(1, 12), rnd.randint(1, 28)
         dt = datetime.datetime(y, m, d, rnd.randint(0, 23), rnd.randint(0, 59), rnd.randint(0, 59))
+        if i < len(edge):
+            dt = edge[i]
         try:
             back = D.to_date(D.to_oa_date(dt))
             if back.replace(microsecond=0) != dt or back.microsecond != 0:
